@@ -184,7 +184,14 @@ ASBUILT = {
   argument order (§5). After the second seeded round (sub-agent, 183 quick / ≈ 460 thorough): `d2bp_multi_dangling` (D2BP / L2BP
   on tensors with up to three dangling labels: messages, marginals of every dangling label, partial traces, value) and `run_history`
   (histories of `run()` calls on one instance for all six flavours: rounds performed and `converged` flag after each step, exact
-  messages and value at the end).""",
+  messages and value at the end).
+  Third round: `d1bp_normalize_tensors_then_read` (symbolic, signed real by sign forks and complex: after the public in-place
+  rescaling `normalize_tensors()` every local contraction is 1 and `contract()` read from the same object is still exact;
+  `get_normalized_tn` leaves the object untouched) and `read_history_supplement` (numeric-only: every sequence of ≤ 3 value reads —
+  `contract`, stripped `contract`, `contract_loop_series_expansion`, `contract_with_loops`, `contract_gloop_expand` with default and
+  explicit covering regions — from one converged D1BP / D2BP / HD1BP object on trees and hyper trees, signed and complex data, with
+  and without a stored exponent on the network). Its first run found a genuine defect, fixed: D2BP mixed a ket-level and a
+  norm-level convention for `bp.sign` / `bp.exponent` (§5).""",
 "C04": """* **As built** (`props/c04.py`, written by a sub-agent and reviewed; 163 quick / 1093 thorough, ≈ 35 s / 3–11 min):
   34 families. Stub-free rewrites on complex symbols with a symbolic stored exponent (`exponent_and_norms`,
   `fuse_and_squeeze`, `gauge_insert_remove` incl. exception safety of the context manager, `insert_gauge` with
